@@ -12,6 +12,7 @@ import Rbgp.Enc.Proofs
 import Rbgp.Enc.Proofs.AsPath
 import Rbgp.Enc.Proofs.NegAgree
 import Rbgp.Enc.Proofs.Progress
+import Rbgp.Enc.Proofs.Structs
 namespace Rbgp.Enc.Props
 open Rbgp.Enc Rbgp.Enc.Spec
 
@@ -345,6 +346,117 @@ example : SegsOk 4 [(3, [65010]), (2, [65001, 70000])] ∧
     intro a ha
     simp only [List.mem_cons, List.not_mem_nil, or_false] at ha
     rcases ha with rfl | rfl <;> decide
+
+/-! ## NLRI codecs of further families: VPN-IPv4/IPv6, labeled unicast, Flow Specification, EVPN
+
+The model encodes and decodes these NLRIs itself (`NStruct.encode`, `NStruct.decodeLike`) when the case carries their
+structure; the theorems say decode ∘ encode = id on the well-formed values (`NStruct.Wf`), function level: the framing
+and splitting around them is covered by the unconditional chunk-loop theorems, the whole-message master theorem stays on
+the IPv4/IPv6 families. -/
+
+/-- a label stack of any depth reads back (labels below 2^20, bottom-of-stack bit on the last) -/
+theorem label_stack_roundtrip (ls : List Nat) (rest : Bytes) (hne : ls ≠ []) (hl : ∀ l ∈ ls, l < 1048576) :
+    readLabels (stackBytes ls ++ rest).length (stackBytes ls ++ rest) = some (ls, rest) :=
+  readLabels_stack ls rest hne hl _ (by simp [stackBytes_length]; omega)
+
+/-- VPN-IPv4 / VPN-IPv6 NLRI (RFC 4364 §4.3.4, RFC 4659 §3.2), multi-label stacks: decode ∘ encode = id -/
+theorem vpn_nlri_roundtrip (ls : List Nat) (rd : Rd) (addr : Bytes) (mask : Nat) (wd : Bool)
+    (hne : ls ≠ []) (hl : ∀ l ∈ ls, l < 1048576) (hrd : RdOk rd) (hm : mask ≤ 8 * addr.length)
+    (hc : AddrCanon addr mask) (hb : 24 * ls.length + 64 + mask ≤ 255) :
+    ∃ bs, (NStruct.vpn ls rd addr mask).encode wd = .ok bs ∧ bs.length = 1 + 3 * ls.length + 8 + ceil8 mask ∧
+      vpnDecode addr.length bs = some (.vpn ls rd addr mask) :=
+  Rbgp.Enc.vpn_nlri_roundtrip ls rd addr mask wd hne hl hrd hm hc hb
+
+/-- labeled unicast NLRI in MP_REACH_NLRI (RFC 8277 §2.2 / §2.3), multi-label stacks: decode ∘ encode = id -/
+theorem labeled_nlri_roundtrip (ls : List Nat) (addr : Bytes) (mask : Nat)
+    (hne : ls ≠ []) (hl : ∀ l ∈ ls, l < 1048576) (hm : mask ≤ 8 * addr.length)
+    (hc : AddrCanon addr mask) (hb : 24 * ls.length + mask ≤ 255) :
+    ∃ bs, (NStruct.lab ls addr mask).encode false = .ok bs ∧ bs.length = 1 + 3 * ls.length + ceil8 mask ∧
+      labDecode addr.length true bs = some (.lab ls addr mask) :=
+  Rbgp.Enc.labeled_nlri_roundtrip ls addr mask hne hl hm hc hb
+
+/-- a withdrawn labeled prefix (RFC 8277 §2.4: compatibility field 0x800000) reads back as the same prefix -/
+theorem labeled_withdraw_roundtrip (ls : List Nat) (addr : Bytes) (mask : Nat) (hm : mask ≤ 8 * addr.length)
+    (hc : AddrCanon addr mask) (hb : 24 + mask ≤ 255) :
+    ∃ bs, (NStruct.lab ls addr mask).encode true = .ok bs ∧ bs.length = 4 + ceil8 mask ∧
+      labDecode addr.length false bs = some (.lab [0] addr mask) :=
+  Rbgp.Enc.labeled_withdraw_roundtrip ls addr mask hm hc hb
+
+/-- more bits than the length octet can say: refused, never wrapped (repaired S7) -/
+theorem label_nlri_too_long (ls : List Nat) (rd : Rd) (addr : Bytes) (mask : Nat) :
+    (24 * ls.length + 64 + mask > 255 → (NStruct.vpn ls rd addr mask).encode false = .err) ∧
+    (24 * ls.length + mask > 255 → (NStruct.lab ls addr mask).encode false = .err) :=
+  Rbgp.Enc.label_nlri_too_long ls rd addr mask
+
+/-- one Flow Specification operator (RFC 8955 §4.2.1.1): the value in 1 / 2 / 4 / 8 octets as its magnitude calls for,
+    the length bits recomputed; `Op::decode ∘ Op::encode = id` -/
+theorem flowspec_op_roundtrip (o : FOp) (rest : Bytes) (h : o.Wf) : readOp (o.bytes ++ rest) = some (o, rest) :=
+  readOp_bytes o rest h
+
+/-- Flow Specification rule (RFC 8955 §4 / RFC 8956 §3; with an RD: the VPN form): prefix components (IPv6: with
+    offset), operator lists of any length, the length field in both forms: decode ∘ encode = id -/
+theorem flowspec_rule_roundtrip (v6 : Bool) (rd : Option Rd) (cs : List FComp) (wd : Bool)
+    (hcs : ∀ c ∈ cs, c.Wf v6) (hrd : ∀ r, rd = some r → RdOk r) (b : Bytes) (hb : compsBytes v6 cs = .ok b)
+    (hlen : (if rd.isSome then 8 else 0) + b.length ≤ 4095) :
+    ∃ bs, (NStruct.flow v6 rd cs).encode wd = .ok bs ∧ flowDecode v6 rd.isSome bs = some (.flow v6 rd cs) :=
+  flow_nlri_roundtrip v6 rd cs wd hcs hrd b hb hlen
+
+/-- a rule longer than the 12-bit length: refused (repaired F4i) -/
+theorem flowspec_rule_too_long (v6 : Bool) (rd : Option Rd) (cs : List FComp) (wd : Bool) (b : Bytes)
+    (hb : compsBytes v6 cs = .ok b) (hlen : (if rd.isSome then 8 else 0) + b.length > 4095) :
+    (NStruct.flow v6 rd cs).encode wd = .err :=
+  flow_nlri_too_long v6 rd cs wd b hb hlen
+
+/-- EVPN NLRI, route types 1 - 5 (RFC 7432 §7.1 - §7.4, RFC 9136 §3.1): decode ∘ encode = id -/
+theorem evpn_nlri_roundtrip (r : EvpnR) (wd : Bool) (h : r.Wf) :
+    ∃ bs, (NStruct.evpn r).encode wd = .ok bs ∧ evpnDecode bs = some (.evpn r) :=
+  Rbgp.Enc.evpn_nlri_roundtrip r wd h
+
+/-- **all modelled NLRI codecs at once**, in the form the model run uses them -/
+theorem nlri_codecs_roundtrip (s : NStruct) (wd : Bool) (h : s.Wf wd) :
+    ∃ bs s', s.encode wd = .ok bs ∧ s.decodeLike (!wd) bs = some s' ∧ NStruct.equiv (!wd) s s' = true :=
+  nstruct_roundtrip s wd h
+
+/-- for entries with a well-formed structure the per-frame decoder parameter of the model run is the modelled codec,
+    not a measurement, and returns every entry as sent -/
+theorem struct_entries_decode_as_sent (ap : Bool) (es : List Entry) (h : ∀ e ∈ es, e.StructOk) :
+    combineProbes ap es = .ents (es.map (fun e => ((if ap then e.pid else 0), true))) :=
+  combineProbes_struct ap es h
+
+def exVpn3 : NStruct := NStruct.vpn [534, 976, 589] ⟨0, 60154, 4097931553⟩ [208, 48, 0, 0] 16
+def exVpn3Wire : Bytes := [152, 0, 33, 96, 0, 61, 0, 0, 36, 209, 0, 0, 234, 250, 244, 65, 121, 33, 208, 48]
+def exLabWd : NStruct := NStruct.lab [534, 976, 589] [107, 219, 0, 0] 16
+def exLabWdWire : Bytes := [40, 128, 0, 0, 107, 219]
+def exFlowVpn : NStruct := NStruct.flow false (some ⟨0, 6771, 405094444⟩) [.pfx 1 24 0 [106, 186, 132, 0], .pfx 2 32 0 [202, 204, 30, 245], .num 3 [⟨129, 26⟩], .num 5 [⟨1, 124890⟩, ⟨129, 121575⟩]]
+def exFlowVpnWire : Bytes := [33, 0, 0, 26, 115, 24, 37, 64, 44, 1, 24, 106, 186, 132, 2, 32, 202, 204, 30, 245, 3, 129, 26, 5, 33, 0, 1, 231, 218, 161, 0, 1, 218, 231]
+def exEvpnMacIp : NStruct := NStruct.evpn (.macip ⟨1, 432237050, 11478⟩ [62, 9, 204, 171, 114, 221, 10, 151, 196, 190] 3653184520 [229, 8, 241, 109, 236, 207] [76, 226, 120, 47] 11792288 none)
+def exEvpnMacIpWire : Bytes := [2, 37, 0, 1, 25, 195, 105, 250, 44, 214, 62, 9, 204, 171, 114, 221, 10, 151, 196, 190, 217, 191, 44, 8, 48, 229, 8, 241, 109, 236, 207, 32, 76, 226, 120, 47, 179, 239, 160]
+
+/-- the modelled codecs on values of corpus/C04/seed-families-embedded-probes.case: the model writes exactly the
+    octets measured on the real encoder, and reads them back -/
+theorem nlri_codec_examples :
+    exVpn3.encode false = .ok exVpn3Wire ∧ exVpn3.decodeLike true exVpn3Wire = some exVpn3 ∧
+    exLabWd.encode true = .ok exLabWdWire ∧ (exLabWd.decodeLike false exLabWdWire).map (NStruct.equiv false exLabWd) = some true ∧
+    exFlowVpn.encode false = .ok exFlowVpnWire ∧ exFlowVpn.decodeLike true exFlowVpnWire = some exFlowVpn ∧
+    exEvpnMacIp.encode false = .ok exEvpnMacIpWire ∧ exEvpnMacIp.decodeLike true exEvpnMacIpWire = some exEvpnMacIp := by
+  decide +kernel
+
+/-- the hypotheses of `nlri_codecs_roundtrip` hold for these values -/
+theorem nlri_codec_examples_wf :
+    exVpn3.Wf false ∧ exLabWd.Wf true ∧ exFlowVpn.Wf false ∧ exEvpnMacIp.Wf false := by
+  refine ⟨⟨by decide, by decide, Or.inl ⟨rfl, by decide, by decide⟩, by decide, by decide, by decide⟩,
+    ⟨by decide, by decide, by decide⟩, ⟨?_, ?_, ?_⟩, ?_⟩
+  · intro c hc
+    simp only [List.mem_cons, List.not_mem_nil, or_false] at hc
+    rcases hc with rfl | rfl | rfl | rfl
+    · exact ⟨Or.inl rfl, rfl, by decide, by decide, rfl⟩
+    · exact ⟨Or.inr rfl, rfl, by decide, by decide, rfl⟩
+    · exact ⟨by decide, by decide, ⟨by decide, by decide, by decide⟩, by decide⟩
+    · exact ⟨by decide, by decide, ⟨by decide, by decide, by decide⟩, by decide, ⟨by decide, by decide, by decide⟩, by decide⟩
+  · intro r hr; cases hr; exact Or.inl ⟨rfl, by decide, by decide⟩
+  · exact ⟨_, rfl, by decide⟩
+  · exact ⟨Or.inr ⟨Or.inl rfl, by decide, by decide⟩, by decide, by decide, by decide, by decide, by decide,
+      fun l hl => by cases hl⟩
 
 /-! ## full-strength statements that do NOT hold, with the witnesses (= replay cases of corpus/C04) -/
 
